@@ -131,7 +131,8 @@ func vlkNewFiles(t testing.TB) *vlkFiles {
 		t.Fatalf("mkdtemp: %v", err)
 	}
 	f := &vlkFiles{dir: dir, path: filepath.Join(dir, "phantom_subnets.toml")}
-	for n, txt := range map[string]string{"A": vlkTomlA, "B": vlkTomlB} {
+	// "bad": a malformed subnet file (a deployment caught half way through an edit): ReloadSubnets must fail and change nothing
+	for n, txt := range map[string]string{"A": vlkTomlA, "B": vlkTomlB, "bad": vlkTomlA[:len(vlkTomlA)/2] + "\n[Networks.oops\n= = ="} {
 		if err := os.WriteFile(filepath.Join(dir, "content_"+n+".toml"), []byte(txt), 0o644); err != nil {
 			t.Fatalf("write: %v", err)
 		}
@@ -144,7 +145,7 @@ func vlkNewFiles(t testing.TB) *vlkFiles {
 // put replaces the subnet file at the configured path atomically (new inode renamed over the old one), as a
 // deployment tool would
 func (f *vlkFiles) put(which string) {
-	if which != "B" {
+	if which != "B" && which != "bad" {
 		which = "A"
 	}
 	f.n++
@@ -811,7 +812,11 @@ func vlkRunBehaviour(t testing.TB, files *vlkFiles, b *vlkBeh, salt int, boundMu
 		out.Resp[n] = v4 + "/" + v6
 	}
 	for n, m := range w.rel {
-		if m.err != nil {
+		if m.target == "bad" {
+			if m.err == nil {
+				out.Errs[n] = "reload from a malformed file returned no error"
+			}
+		} else if m.err != nil {
 			out.Errs[n] = fmt.Sprint(m.err)
 		}
 	}
@@ -1024,8 +1029,8 @@ func TestVerifLocksStress(t *testing.T) {
 	rounds := vEnvInt("VERIF_ROUNDS", 40)
 	stallBound := time.Duration(vEnvInt("VERIF_STRESS_BOUND_MS", 15000)) * time.Millisecond
 	reqNames := []string{"d1", "d2", "f1", "s1"}
-	relNames := []string{"m1", "m2", "m3"}
-	targets := map[string]string{"m1": "B", "m2": "A", "m3": "B"}
+	relNames := []string{"m1", "m2", "m3", "m4"}
+	targets := map[string]string{"m1": "B", "m2": "bad", "m3": "A", "m4": "B"}
 
 	// ---- traced rounds: one call per request process, three sequential reloads
 	for round := 0; round < rounds; round++ {
@@ -1034,7 +1039,7 @@ func TestVerifLocksStress(t *testing.T) {
 		lg.add(map[string]any{"a": "Reset"})
 		var wg sync.WaitGroup
 		start := make(chan struct{})
-		nrel := 1 + rng.Intn(3)
+		nrel := 1 + rng.Intn(4)
 		for _, n := range reqNames {
 			rq := w.reqs[n]
 			delay := time.Duration(rng.Intn(400)) * time.Microsecond
@@ -1066,7 +1071,7 @@ func TestVerifLocksStress(t *testing.T) {
 				files.put(targets[m])
 				lg.add(map[string]any{"a": "ReloadStart", "p": m, "t": targets[m]})
 				err := w.p.ReloadSubnets()
-				lg.add(map[string]any{"a": "ReloadEnd", "p": m, "err": fmt.Sprint(err)})
+				lg.add(map[string]any{"a": "ReloadEnd", "p": m, "failed": err != nil, "err": fmt.Sprint(err)})
 			}
 		}()
 		close(start)
@@ -1135,13 +1140,18 @@ func TestVerifLocksStress(t *testing.T) {
 				return
 			default:
 			}
-			if i%2 == 0 {
+			bad := i%5 == 3 // every fifth reload finds a malformed file: it must fail and change nothing
+			if bad {
+				files.put("bad")
+			} else if i%2 == 0 {
 				files.put("B")
 			} else {
 				files.put("A")
 			}
-			if err := w.p.ReloadSubnets(); err != nil {
+			if err := w.p.ReloadSubnets(); err != nil && !bad {
 				relErr.CompareAndSwap(nil, err.Error())
+			} else if err == nil && bad {
+				relErr.CompareAndSwap(nil, "reload from a malformed file returned no error")
 			}
 			nrelDone.Add(1)
 			time.Sleep(time.Duration(50+i%7*40) * time.Microsecond)
